@@ -10,9 +10,100 @@ ASSUMPTIONS = [
 ]
 
 
+def files_idempotence(ctx, replay=None):
+    """C05's last clause on the BUNDLED file stores (the in-memory stores of the histories tick a logical clock on every
+    write; whether a real store's modified time moves on every completed write is a fact about the store): build; make the
+    source newer WITHOUT changing its content (or advance fresh_time), so that the rebuilt values serialise to the very
+    bytes already on disk; rebuild; a third run must perform no call, no read and no write."""
+    import os
+    import random
+    import tempfile
+    import time
+
+    import uberjob
+    from uberjob.stores import BinaryFileStore, JsonFileStore, PickleFileStore, TextFileStore, TouchFileStore
+    rng = random.Random(ctx.seed * 13 + 1)
+    kinds = {"json": (JsonFileStore, lambda v: ["x", v]), "pickle": (PickleFileStore, lambda v: ("x", v)),
+             "text": (TextFileStore, lambda v: "x%s" % (v,)), "binary": (BinaryFileStore, lambda v: b"x" + repr(v).encode()),
+             "touch": (TouchFileStore, lambda v: None)}
+    cases = [replay["files_case"]] if replay else [(k, how, w) for k in kinds for how in ("touch-source", "fresh-time")
+                                                   for w in (rng.choice([1, 3]),)]
+    viol, done = [], 0
+    for kind, how, workers in cases:
+        S, f = kinds[kind]
+        with tempfile.TemporaryDirectory() as d:
+            calls, ops = [], []
+
+            class Rec(S):                    # counts the store operations without changing them
+                def read(self):
+                    ops.append(("read", os.path.basename(self.path)))
+                    return super().read()
+
+                def write(self, value):
+                    ops.append(("write", os.path.basename(self.path)))
+                    return super().write(value)
+            Rec.__name__ = Rec.__qualname__ = S.__name__
+
+            def build():
+                plan, reg = uberjob.Plan(), uberjob.Registry()
+                src = reg.source(plan, TextFileStore(os.path.join(d, "src.txt")))
+
+                def fa(v):
+                    calls.append("a")
+                    return f(v)
+
+                def fb(v):
+                    calls.append("b")
+                    return f(repr(v))
+                a = plan.call(fa, src)
+                reg.add(a, Rec(os.path.join(d, "a.dat")))
+                b = plan.call(fb, a)
+                reg.add(b, Rec(os.path.join(d, "b.dat")))
+                return plan, reg
+
+            def run(fresh=None):
+                del calls[:], ops[:]
+                plan, reg = build()
+                uberjob.run(plan, registry=reg, progress=None, max_workers=workers, fresh_time=fresh)
+                return list(calls), list(ops)
+            with open(os.path.join(d, "src.txt"), "w") as fh:
+                fh.write("input")
+            time.sleep(0.02)
+            first = run()
+            time.sleep(0.02)
+            fresh = None
+            if how == "touch-source":
+                with open(os.path.join(d, "src.txt"), "w") as fh:      # same content, newer modified time
+                    fh.write("input")
+            else:
+                import datetime as dt
+                fresh = dt.datetime.now()
+            time.sleep(0.02)
+            second = run(fresh)
+            time.sleep(0.02)
+            third = run(fresh)
+            done += 1
+            case = [kind, how, workers]
+            if sorted(second[0]) != ["a", "b"]:
+                viol.append({"property": "C05", "what": f"{kind} stores, {how}: the out-of-date stored values were not both rebuilt "
+                             f"(calls {second[0]}, store operations {second[1]})", "replay_fn": "files", "files_case": case})
+            elif third[0] or third[1]:
+                viol.append({"property": "C05", "what": f"{kind} stores, {how}: a run repeated right after a successful rebuild (whose values "
+                             f"serialise to the bytes already on disk) performed calls {third[0]} and store operations {third[1]}",
+                             "replay_fn": "files", "files_case": case})
+            if viol:
+                break
+    return {"violations": viol, "disagreements": [], "coverage": {"file_store_idempotence_cases": done}}
+
+
 def explore(ctx):
     n = 110 if ctx.tier == "quick" else 4000
-    return ce.explore_cache(ctx, PROPS, n, steps=6)
+    res = ce.explore_cache(ctx, PROPS, n, steps=6)
+    if not res["violations"]:
+        f = files_idempotence(ctx)
+        res["violations"] += f["violations"]
+        res["coverage"].update(f["coverage"])
+    return res
 
 
 def search(ctx, broken):
@@ -31,4 +122,8 @@ def search(ctx, broken):
 
 
 def replay(ctx, payload):
-    return ce.replay_cache(ctx, payload.get("witness", payload), PROPS)
+    w = payload.get("witness", payload)
+    if w.get("replay_fn") == "files":
+        r = files_idempotence(ctx, replay=w)
+        return r["violations"][0]["what"] if r["violations"] else None
+    return ce.replay_cache(ctx, w, PROPS)
